@@ -4,14 +4,25 @@
    by VerifTrace with their real sp deltas, and the crash-oracle bits of the search. *)
 From Coq Require Import List Arith ZArith Bool.
 Import ListNotations.
-From Verif.C01 Require Import Model Table.
+From Verif.C01 Require Export Model Table.
+
+(* compact, monomorphic case syntax (few tokens / nodes: parsing dominates the cost of a shard) *)
+Inductive elist := ENil | E (p q : N) (d : Z) (r : elist).   (* executed pc -> next executed pc of the same activation, sp delta *)
+Inductive blist := BNil | B (mode : N) (c : code) (e : elist) (r : blist).
+                                       (* mode 0 = global / eval code; 1 = function; 2 = class field initialiser *)
+Inductive tcase := mkCase (b : blist) (crash : N).
 
 Record body := mkBody {
-  b_mode : nat;                        (* 0 = runs to the end of the code (global, eval, field initialiser); 1 = function *)
+  b_mode : nat;
   b_code : list (kind * list Z);
-  b_edges : list (nat * nat * Z) }.    (* executed pc -> next executed pc of the same activation, sp delta *)
+  b_edges : list (nat * nat * Z) }.
 
-Record tcase := mkCase { t_bodies : list body; t_crash : nat }.
+Fixpoint edges_of (e : elist) : list (nat * nat * Z) :=
+  match e with ENil => [] | E p q d r => (N.to_nat p, N.to_nat q, d) :: edges_of r end.
+Fixpoint bodies_of (b : blist) : list body :=
+  match b with BNil => [] | B md c e r => mkBody (N.to_nat md) (decode c) (edges_of e) :: bodies_of r end.
+Definition t_bodies (c : tcase) : list body := match c with mkCase b _ => bodies_of b end.
+Definition t_crash (c : tcase) : nat := match c with mkCase _ n => N.to_nat n end.
 
 Definition is_enterblock (k : kind) : bool := match k with K_enterBlock => true | _ => false end.
 Definition is_prologue (k : kind) : bool :=
@@ -29,13 +40,9 @@ Definition catch_targets (c : list (kind * list Z)) : list nat :=
    not captured: such a block is entered by an enterBlock whose stackSize excludes that slot
    (compiler_stmt.go compileTryStatement: enter.stackSize--), and left by a leaveBlock that includes it *)
 Definition resolve (c : list (kind * list Z)) : list shape :=
-  let ct := catch_targets c in
-  map (fun pi => let k := fst (snd pi) in let ops := snd (snd pi) in
-                 if is_enterblock k && existsb (Nat.eqb (fst pi)) ct
-                 then SEnter 1 (S (Z.to_nat (opz ops 0)))
-                 else shape_of k ops) (combine (seq 0 (length c)) c).
+  map (fun ki => shape_of (fst ki) (snd ki)) c.
 
-Definition mode_of (b : body) : mode := if b_mode b =? 0 then MGlobal else MFunc.
+Definition mode_of (b : body) : mode := match b_mode b with 0 => MGlobal | 1 => MFunc | _ => MInit end.
 
 Definition phys (s : astate) : Z :=
   Z.of_nat (a_loc s + fold_right (fun g acc => sn g + acc) 0 (a_segs s) + (length (a_segs s) - 1)).
@@ -49,16 +56,16 @@ Definition succ_pcs (code : list shape) (md : mode) (m : amap) (p : nat) : list 
 
 Definition edge_ok (c : list (kind * list Z)) (code : list shape) (md : mode) (m : amap) (e : nat * nat * Z) : bool :=
   let '(p, q, d) := e in
-  match nth p m [], nth q m [] with
-  | sp :: _, sq :: _ =>
-      existsb (Nat.eqb q) (succ_pcs code md m p)
-      && (if is_prologue (fst (nth p c (K_unknown, []))) then true
-          else if exact sp && exact sq then Z.eqb (phys sq - phys sp) d else true)
-  | _, _ => false
-  end.
+  let lp := nth p m [] in
+  let lq := nth q m [] in
+  negb (Nat.eqb (length lp) 0) && negb (Nat.eqb (length lq) 0)
+  && existsb (Nat.eqb q) (succ_pcs code md m p)
+  && (if is_prologue (fst (nth p c (K_unknown, []))) then true
+      else existsb (fun sp => existsb (fun sq =>
+             if exact sp && exact sq then Z.eqb (phys sq - phys sp) d else true) lq) lp).
 
 (* diagnosis: 0 ok | 1 skipped (unknown instruction kind: coverage gap) | 2 verifier rejects at pc |
-   3 observed edge contradicts the table | 4 heights differ at a join *)
+   3 observed edge contradicts the table *)
 Definition first_reject (code : list shape) (md : mode) (m : amap) : option nat :=
   find (fun pc => negb (forallb (fun s =>
          if pc =? length code then final_ok md s
@@ -76,7 +83,6 @@ Definition diag_body (b : body) : nat * nat :=
     let m := infer code md in
     if negb (check code md m) then
       (2, match first_reject code md m with Some pc => pc | None => length code end)
-    else if negb (consistent m) then (4, 0)
     else match find (fun e => negb (edge_ok c code md m e)) (b_edges b) with
          | Some (p, _, _) => (3, p)
          | None => (0, 0)
